@@ -213,8 +213,8 @@ RULES_TB = [
     "the theorem statements in lean/ScrutModel/Props/C04.lean being a faithful reading of the property (GlobRel / TokRel / Matches are the documented meanings)",
     CORR,
     "hand-written models lean/ScrutModel/Model/Glob.lean (GlobRule = wildmatch incl. `**` simplification and the crate's loop transliterated; CramGlobRule = token reading of glob_to_regex_string) and Model/RegexWrap.lean (the `^(?:e)$` wrap as AST construction over a regex fragment with position-based semantics), tied to the code by correspondence",
-    "the wildmatch crate and the regex crate (syntax, engine, Unicode handling) are dependencies: their behaviour is sampled exhaustively on the small scope, not proved; the transliterated wildmatch loop (wildLoop) is compared with the proved denotation (globGo) on every case by the driver, not by a theorem",
-    "the three Cram-compat clean-up passes of RegexRule::make are not modelled; the direct oracle compares the rule with the regex crate's own `\\A(?:e)\\z` for the cleaned expression (`unmake`)",
+    "the wildmatch crate and the regex crate (syntax, engine, Unicode handling) are dependencies: their behaviour is sampled exhaustively on the small scope, not proved; the transliterated wildmatch loop (wildLoop, with explicit fuel) is proved equal to the denotation (C04_wildmatch_is_glob) — that the transliteration is the crate's loop is checked by correspondence",
+    "the three Cram-compat clean-up passes of RegexRule::make are modelled on the expression text (Model/RegexCleanup.lean: look-ahead as a flag, Regex::replace_all of the two fixed patterns as a left-to-right scan with a skip counter) and compared with the real cleaned expression (`unmake()`, or the pattern quoted in the regex crate's syntax error when the result does not compile); the link between expression text and the AST `RE` of the whole-line theorems (the regex crate's parser) is not modelled; the direct oracle compares the rule with the regex crate's own `\\A(?:e)\\z` for the cleaned expression and for the expression as written",
     "lines are valid UTF-8 (List Char); decoding (lossy for glob) is outside the theorems",
     RUSTC,
 ]
@@ -222,7 +222,7 @@ RULES_RULE = (
     "glob: every pattern over {a,b,*,?} up to length 5 x every line over the same alphabet up to length 6 through ExpectationMaker::parse(\"<pat> (glob)\") for the default registry and for the Cram-compat registry (CramGlobRule registered as in make_expectation_maker(true)); "
     "the same with 1 and 2 trailing newlines (length 4x4), with one multi-byte character (é), Cram escapes over {a,*,?,\\} 5x5; seeded random pairs over a 16-character pool incl. 2-4 byte characters and a combining mark. "
     "regex: every expression of the fragment (atoms a b . ^ $, (?:..), *, concatenation, <=3 alternatives per level) with <= 5 nodes x every line over {a,b} up to length 4 (and 1-2 trailing newlines for <= 4 nodes) against searchB (wrap e); "
-    "direct oracle on these and on 40k seeded arbitrary expression strings (30-token pool incl. classes, quantifiers, escapes): RegexRule::matches == regex::bytes `\\A(?:cleaned)\\z`. "
+    "clean-up passes: every expression over {a \\ { } [ ] 1 , - < > |} up to length 5 (thorough: 6, 3.26M) through RegexRule::make, up to length 3 and 20k random token strings through ExpectationMaker::parse, 25k `<<<<..>>>>` shapes, cleaned text against regexClean; direct oracle on these and on 40k seeded arbitrary expression strings (30-token pool incl. classes, quantifiers, escapes): RegexRule::matches == regex::bytes `\\A(?:cleaned)\\z`. "
     "One case = one expression against its whole line enumeration. non-trivial = the expression has a wildcard / a top-level alternation and both matching and non-matching lines; distinct = distinct model op line"
 )
 PROPS["C04"] = {"rule": RULES_RULE, "trusted_base": RULES_TB, "assumptions": [
@@ -316,9 +316,9 @@ MANIFEST_TEXT = {
         "technique": "Lean 4 theorems on a string-function model of the grammar regex + exhaustive differential correspondence + independent backwards-scanner oracle",
     },
     "C04": {
-        "text": "PATTERN KINDS. Machine-checked: wildmatch's matching (with `**` simplification) holds iff the pattern relates to the text by the documented relation GlobRel (`?` exactly one character, `*` any run, rest literal, whole text) for all patterns and texts (C04_glob_iff), hence a line matches a glob expectation iff the whole line without its final newline is an instance (C04_glob_line_partial, under IsLine); the Cram-compat glob likewise against its token reading with `\\*` `\\?` `\\\\` literal (C04_cram_glob_iff, C04_cram_glob_line_partial); an unanchored search for `^(?:e)$` succeeds iff e matches from position 0 to the end, for every e of the regex fragment incl. nested alternations and anchors (C04_regex_whole_line, C04_regex_line_partial), the executable search decides the relational semantics (C04_regex_search_decides); the pre-fix wrap `^e$` accepts a prefix or suffix for alternations (C04_old_wrap_prefix_or_suffix, C04_old_wrap_fails_on_witness: `a|b` vs `axxx`). Tie to code: exhaustive small-scope differential runs of the real GlobRule / CramGlobRule / RegexRule through ExpectationMaker::parse, reference matchers written from the documentation, and for regex the regex crate's own `\\A(?:e)\\z` on generated and arbitrary expressions.",
+        "text": "PATTERN KINDS. Machine-checked: wildmatch's matching (with `**` simplification) holds iff the pattern relates to the text by the documented relation GlobRel (`?` exactly one character, `*` any run, rest literal, whole text) for all patterns and texts (C04_glob_iff), hence a line matches a glob expectation iff the whole line without its final newline is an instance (C04_glob_line_partial, under IsLine); the Cram-compat glob likewise against its token reading with `\\*` `\\?` `\\\\` literal (C04_cram_glob_iff, C04_cram_glob_line_partial); an unanchored search for `^(?:e)$` succeeds iff e matches from position 0 to the end, for every e of the regex fragment incl. nested alternations and anchors (C04_regex_whole_line, C04_regex_line_partial), the executable search decides the relational semantics (C04_regex_search_decides); the pre-fix wrap `^e$` accepts a prefix or suffix for alternations (C04_old_wrap_prefix_or_suffix, C04_old_wrap_fails_on_witness: `a|b` vs `axxx`). The wildmatch crate's own iterative loop (transliterated, explicit fuel) never exhausts its fuel and equals the recursive matcher (C04_wildmatch_is_glob, C04_wildmatch_iff); Cram glob = plain glob for backslash-free patterns (C04_cram_glob_is_glob); the three regex clean-up passes are the identity on every expression without `{ } [ ]`, without a backslash in front of an unrecognised character and without `<<<<` (C04_cleanup_identity), so for those the compiled pattern wraps exactly the written text. Tie to code: exhaustive small-scope differential runs of the real GlobRule / CramGlobRule / RegexRule through ExpectationMaker::parse, reference matchers written from the documentation, and for regex the regex crate's own `\\A(?:e)\\z` on generated and arbitrary expressions.",
         "design_ref": "DESIGN.md §6 C04",
-        "note": "Partial: (1) IsLine guard — the rules strip all trailing newlines, so `a (glob)` matches `a\\n\\n` (C04_glob_unguarded_fails_on_witness); such input never comes from split_at_newline. (2) lines that are not valid UTF-8 are outside the theorems (glob sees U+FFFD, regex-based rules cannot step over the byte). (3) the Cram-compat clean-up passes of RegexRule::make are not modelled; the direct oracle compares the rule with the expression as written whenever that is a valid regex: deliberate re-readings (`\\<` as literal `<`, `[` inside a class as a literal) are counted in the histogram, any other change is an oracle failure (open finding: escape_misused_character_class turns `[a]]` into the class `[a\\]]`, so `[a]] (regex)` accepts `a` and rejects `a]`, and makes `[a-]]` unparsable). The wildmatch and regex crates are trusted dependencies sampled by correspondence.",
+        "note": "Partial: (1) IsLine guard — the rules strip all trailing newlines, so `a (glob)` matches `a\\n\\n` (C04_glob_unguarded_fails_on_witness); such input never comes from split_at_newline. (2) lines that are not valid UTF-8 are outside the theorems (glob sees U+FFFD, regex-based rules cannot step over the byte). (3) outside the `plain` guard of C04_cleanup_identity the clean-up passes may change the meaning of a valid regex: the direct oracle compares the rule with the expression as written whenever that is a valid regex: deliberate re-readings (`\\<` as literal `<`, `[` inside a class as a literal) are counted in the histogram, any other change is an oracle failure (open findings, witnessed on the model: escape_misused_character_class turns `[a]]` into the class `[a\\]]` (C04_cleanup_bracket_witness) and makes `[a-]]` unparsable (C04_cleanup_range_witness); pass 2.3 of escape_misused_repetition_quantifier rewrites a user-written `<<<<1>>>>` into `{1}` (C04_cleanup_angle_witness)). (4) the regex crate's parser (text -> AST) is not modelled. The wildmatch and regex crates are trusted dependencies sampled by correspondence.",
         "technique": "Lean 4 theorems (decision procedure = inductive specification) on executable models of wildmatch / glob-to-regex / regex wrap + exhaustive differential correspondence + regex-crate whole-line oracle",
     },
     "C11": {
